@@ -19,7 +19,7 @@ RULE = ('Cases = generated scene (exact_counts 50% with 1-5 flat layers of exact
         '(per-level okta tuple, MSA-position pattern, n_above vs MAX_HITS_OKTA0, message).')
 ASSUMPTIONS = ['the cropped-hit count is computed by the harness from the input rows (crop model), not from '
                'the chunk flag', 'crashes of run() are left to C08']
-BUDGET = {'quick': 1200, 'thorough': 40000}
+BUDGET = {'quick': 900, 'thorough': 40000}
 CORPUS = 'pipeline'
 COVER_TABLE = ('cells = (okta-class tuple of the layers table with <= 4 rows: 781 tuples) x (pattern of rows at/above the '
                'MSA) x (number of cropped hits > MAX_HITS_OKTA0)')
@@ -40,15 +40,26 @@ def run_job(job, ctx):
     import itertools
     from vlib.props import c01
     k = job['k']
+    if job['what'] == 'oktas':
+        for rest in itertools.product(range(9), repeat=k - 1):
+            for msa in (None, 1000 + 2000 * (k - 1)):
+                case = c01.enum_case_oktas((job['first'],) + rest, msa)
+                ctx.record(case, check(case))
+        if job['first'] == 8:
+            ctx.stats.exhaustive.append(f'all okta value tuples (0..8) of {k} stacked flat layers x MSA None / at the top base')
+        return
     for rest in itertools.product(range(5), repeat=k - 1):
         classes = (job['first'],) + rest
         for msa in c01.enum_msas(k):
-            for extra_high in (0, 3):
+            for extra_high in (0, 3, 'multi'):
                 case = c01.enum_case(classes, msa)
-                # optional cirrus far above every MSA+buffer: drives the high-cloud flag (3 > MAX_HITS_OKTA0 = 2)
-                for i in range(extra_high):
-                    case['rows'].append(['a', -900.0 + 30.0 * i, 30000.0, len([r for r in case['rows']
-                                                                             if r[1] == -900.0 + 30.0 * i and r[3] > 0]) + 1])
+                # optional cirrus far above every MSA+buffer: drives the high-cloud flag (3 > MAX_HITS_OKTA0 = 2);
+                # 'multi' = two measurements with two high hits each (4 hits, but only 2 measurements)
+                add = [(i, 30000.0) for i in range(extra_high)] if extra_high != 'multi' else \
+                    [(0, 30000.0), (0, 31000.0), (1, 30000.0), (1, 31000.0)]
+                for i, h in add:
+                    case['rows'].append(['a', -900.0 + 30.0 * i, h, len([r for r in case['rows']
+                                                                     if r[1] == -900.0 + 30.0 * i and r[3] > 0]) + 1])
                 # a measurement cannot hold a non-detection and a hit: drop the non-detection rows that got company
                 keep = []
                 for r in case['rows']:
